@@ -1008,6 +1008,82 @@ def norm_bool(d, val):
     return ('true' if val else 'false', d)
 
 
+def const_reach(body, R, env):
+    """Constant propagation for const-generic booleans: the set of blocks reachable from the entry when the
+    named constants have the given values (switches on anything else keep all their successors)."""
+    cfg = body.cfg()
+    seen = set()
+    work = [(0, ())]
+    reached = set()
+    while work:
+        bb, known = work.pop()
+        key = (bb, known)
+        if key in seen or not isinstance(bb, int) or bb < 0:
+            continue
+        seen.add(key)
+        reached.add(bb)
+        vals = dict(known)
+        bl = body.blocks[bb]
+        for st in bl['stmts']:
+            if st['k'] == 'assign' and not st['place']['proj']:
+                v = _const_val(st['rv'], vals, env)
+                l = st['place']['local']
+                if v is None:
+                    vals.pop(l, None)
+                else:
+                    vals[l] = v
+        t = bl['term']
+        k = t['k']
+        nk = tuple(sorted(vals.items()))
+        if k == 'switch':
+            d = None
+            op = t['discr']
+            if op['k'] in ('copy', 'move') and not op['place']['proj']:
+                d = vals.get(op['place']['local'])
+            elif op['k'] == 'const':
+                d = _const_operand(op, env)
+            if d is None:
+                for _, tgt in t['targets']:
+                    work.append((tgt, nk))
+                work.append((t['otherwise'], nk))
+            else:
+                tgt = None
+                for v, x in t['targets']:
+                    if v == int(d):
+                        tgt = x
+                work.append((tgt if tgt is not None else t['otherwise'], nk))
+        else:
+            for s_ in cfg.succ.get(bb, []):
+                if isinstance(s_, tuple):
+                    for s2 in cfg.succ.get(s_, []):
+                        work.append((s2, nk))
+                else:
+                    work.append((s_, nk))
+    return reached
+
+
+def _const_operand(op, env):
+    if op['k'] == 'const':
+        if 'val' in op and isinstance(op['val'], bool):
+            return op['val']
+        if op.get('dbg') in env:
+            return env[op['dbg']]
+    return None
+
+
+def _const_val(rv, vals, env):
+    def opv(op):
+        if op['k'] in ('copy', 'move') and not op['place']['proj']:
+            return vals.get(op['place']['local'])
+        return _const_operand(op, env)
+    if rv['k'] == 'use':
+        return opv(rv['op'])
+    if rv['k'] == 'unop' and rv['op'] == 'Not':
+        v = opv(rv['x'])
+        return None if v is None else (not v)
+    return None
+
+
 def phi_table(body, R, local):
     """For a local assigned in several arms: list of (value expr, guard literals of the assigning block, bb)."""
     out = []
